@@ -110,6 +110,13 @@ class P04(SessionPlan):
                     yield C.SessionCase("connack-deadline", Cfg(profile=prof, model=model), steps=head + [("adv", 1)])
                     yield C.SessionCase("connack-deadline", Cfg(profile=prof, model=model), steps=head + [("connack", 0, 0, False), ("adv", 1)])
                     yield C.SessionCase("connack-deadline", Cfg(profile=prof, model=model), steps=head + [("connack", 0, 2, False), ("adv", 1)])
+        # the client aborts on its own (a packet type it must not get) and the application then uses the protocol object again
+        for model in MODELS:
+            for prof in ("pubsub", "sub"):
+                for blob in (b"\xf0\x00", b"\x00\x00", b"\x82\x02\x00\x01", b"\xc0\x00", b"\x10\x00", b"\xe0\x00", b"\x20\x01\x00"):
+                    for pre in (connected(), connected(ka=5) + [("sub", 0, "str", 1, 1)], [("build", 0), ("connect", 0, True, 0, 4)]):
+                        yield C.SessionCase("abort-then-reuse", Cfg(profile=prof, model=model, close_delay=0.5),
+                                            steps=pre + [("raw", 0, blob), ("adv", 1), ("connect_stale", 0, True, 0, 4), ("adv", 11), ("pub", 0, 1)])
         # only every other protocol of the factory gets an onDisconnection handler (same address, and two addresses)
         for model in MODELS:
             for prof in ("pubsub", "pub", "sub"):
